@@ -3,6 +3,7 @@ package main
 // Calls: builtins, library models, contracts (modular), inlining, interface dispatch, returns, defers.
 
 import (
+	"fmt"
 	"go/types"
 	"strings"
 
@@ -83,6 +84,20 @@ func inlinePkg(path string) bool {
 
 func (e *Engine) callFn(st *State, fr *Frame, fn *ssa.Function, args []Val, clo *FuncInfo, in ssa.Instruction, bind ssa.Value) {
 	name := fn.String()
+	// "atcall NAME: expr" clauses of the function under verification: a two-state assertion (old() = entry of the
+	// function under verification, locals by name) that must hold whenever NAME is about to be called
+	if fr.isTop && e.cur != nil && e.cur.c != nil && !e.cur.discover && e.cur.collect == nil {
+		for _, cl := range e.cur.c.Clauses {
+			if cl.Kind != "atcall" || cl.Name != fn.Name() || (cl.Case != "" && cl.Case != e.cur.caseName) || !e.wantClause(cl, e.cur.c) {
+				continue
+			}
+			ctx := e.frameCtx(st, fr, fr.blk)
+			g := e.evalBool(ctx, cl.Expr)
+			e.curClause = cl
+			e.oblige(st, "atcall", fmt.Sprintf("atcall@%s#%d", cl.Name, cl.Ord), g, in.Pos(), cl.Props, cl.Text)
+			e.curClause = nil
+		}
+	}
 	// 1. library models
 	if m := lookupModel(fn); m != nil {
 		res, ok := m(e, st, fr, fn, args, in)
